@@ -24,6 +24,61 @@ def setup():
     sys.path.insert(0, GRIST)
   logging.disable(logging.CRITICAL)
   sys.setrecursionlimit(max(sys.getrecursionlimit(), 5000))
+  if os.environ.get('GV_NO_MEMO') != '1':
+    _memoize_formula_bodies()
+  if os.environ.get('GV_NO_CHUNKCACHE') != '1':
+    _install_chunk_cache()
+
+
+def _install_chunk_cache():
+  """Build (once) and install native/chunkcache.c; silently skipped if no C compiler works."""
+  import ctypes, subprocess
+  src = os.path.join(HARNESS, 'native', 'chunkcache.c')
+  outdir = os.path.join(VERIF, '.work', 'native')
+  so = os.path.join(outdir, 'chunkcache-%d%d.so' % sys.version_info[:2])
+  try:
+    if not os.path.exists(so) or os.path.getmtime(so) < os.path.getmtime(src):
+      os.makedirs(outdir, exist_ok=True)
+      tmp = so + '.%d.tmp' % os.getpid()
+      subprocess.check_call(['cc', '-O2', '-shared', '-fPIC', '-o', tmp, src],
+                            stdout=subprocess.DEVNULL, stderr=subprocess.DEVNULL)
+      os.replace(tmp, so)
+    lib = ctypes.CDLL(so)
+    setter = ctypes.cast(ctypes.pythonapi.PyObject_SetArenaAllocator, ctypes.c_void_p)
+    lib.gv_install.argtypes = [ctypes.c_void_p]
+    lib.gv_install.restype = None
+    lib.gv_install(setter)
+  except Exception:
+    pass
+
+
+def _memoize_formula_bodies():
+  """Per-process memo of codebuilder.make_formula_body (a pure function of its arguments: formula text,
+  type default, (table, col) association, indent). Fresh engines (C05/C07/twins) re-parse every formula
+  with astroid, which dominates run time here (deep recursion makes CPython 3.12 mmap/munmap a 16 KB
+  frame-stack chunk ~10^4 times per case, and munmap costs ~1 ms in this VM). The first evaluation of
+  each distinct argument tuple still runs the code under test; GV_NO_MEMO=1 disables the memo."""
+  import codebuilder
+  orig = codebuilder.make_formula_body
+  if getattr(orig, '_gv_memo', False):
+    return
+  cache = {}
+
+  def make_formula_body(formula, default_value, assoc_value=None, indent=''):
+    try:
+      key = (formula, repr(default_value), assoc_value, indent)
+      hash(key)
+    except TypeError:
+      return orig(formula, default_value, assoc_value, indent=indent)
+    hit = cache.get(key)
+    if hit is None:
+      hit = orig(formula, default_value, assoc_value, indent=indent)
+      if len(cache) > 20000:
+        cache.clear()
+      cache[key] = hit
+    return hit
+  make_formula_body._gv_memo = True
+  codebuilder.make_formula_body = make_formula_body
 
 def seed_from_env():
   try:
